@@ -58,6 +58,35 @@ fn main() {
             }
             node::install_panic_counter(true);
             let job: run::Job = serde_json::from_slice(&std::fs::read(&args[2]).expect("job spec")).expect("job json");
+            // No-progress watchdog: the jobs that record a case before every step take milliseconds per step.
+            // When such a job has stepped quickly so far and then sits on one case for minutes, the code under
+            // test does not terminate on it (a start-up that spins, a handler that never answers): that is a
+            // verdict about the case, reported with its name, not a time-out of the machinery.
+            {
+                let (prop, spec, out) = (job.prop.clone(), job.spec.clone(), args[3].clone());
+                std::thread::spawn(move || loop {
+                    std::thread::sleep(Duration::from_secs(5));
+                    let snapshot = run::CRUMBS.lock().ok().and_then(|g| g.clone());
+                    let Some((first, last, n, text)) = snapshot else { continue };
+                    let stepping_fast = n >= 20 && last.duration_since(first).as_secs_f64() / (n as f64) < 2.0;
+                    if stepping_fast && last.elapsed() > Duration::from_secs(240) {
+                        let class: String = text.chars().filter(|c| !c.is_ascii_digit()).take(90).collect();
+                        let res = run::JobResult {
+                            executions: n,
+                            violations: vec![run::Violation {
+                                property: prop.clone(),
+                                key: format!("{prop}:does-not-terminate:{class}"),
+                                message: format!("the code under test has not finished this case for {} s (the {n} cases before it took {:.3} s each on average): {}", last.elapsed().as_secs(), last.duration_since(first).as_secs_f64() / (n as f64), text.chars().take(600).collect::<String>()),
+                                replay: serde_json::json!({"kind": "died", "case": text, "job": spec}),
+                            }],
+                            capped: Some("job cut short: a case did not terminate (reported as a violation)".into()),
+                            ..Default::default()
+                        };
+                        let _ = std::fs::write(&out, serde_json::to_vec(&res).unwrap());
+                        std::process::exit(0);
+                    }
+                });
+            }
             match std::panic::catch_unwind(|| props::run_job(&job)) {
                 Ok(res) => std::fs::write(&args[3], serde_json::to_vec(&res).unwrap()).expect("write result"),
                 Err(_) => {
